@@ -288,6 +288,25 @@ def _ctor(case):
                 for i in range(3):
                     r = rows[i]
                     c.eq("Eul[N]:%s/value" % rep, np.asarray(X.data[i], dtype=float)[:3, :3], refs.rotz(r[0] / k) @ refs.roty(r[1] / k) @ refs.rotz(r[2] / k), TOL, form=frm)
+    # angles read back from a multi-valued unit quaternion, in the same convention and unit: one row per value, and the row
+    # handed to the constructor of the same convention rebuilds that value (whatever angles were chosen)
+    okq, Qm = c.lib("UnitQuaternion[N]", lambda: L.UnitQuaternion([refs.q_of_R(R_) for R_ in refsR]))
+    if okq and len(Qm) == 3:
+        for nm_, get, mk_ in (("rpy", lambda: Qm.rpy(order=case["order"], unit=unit), lambda r_: L.SO3.RPY(list(r_), order=case["order"], unit=unit)),
+                              ("rpy/positional", lambda: Qm.rpy(unit, case["order"]), lambda r_: L.SO3.RPY(list(r_), order=case["order"], unit=unit)),
+                              ("eul", lambda: Qm.eul(unit=unit), lambda r_: L.SO3.Eul(list(r_), unit=unit))):
+            okr, A_ = c.lib("UnitQuaternion[N].%s" % nm_, get)
+            if not okr:
+                continue
+            A_ = np.asarray(A_, dtype=float)
+            if not c.true("UnitQuaternion[N].%s/shape" % nm_, A_.shape == (3, 3), "angles of three values have shape %s" % (A_.shape,)):
+                continue
+            # rows or columns: the docstring says one row per value; three values make the two layouts indistinguishable by
+            # shape, so the rebuilt rotations decide
+            for i in range(3):
+                okb, Xi = c.lib("UnitQuaternion[N].%s/rebuild" % nm_, mk_, A_[i])
+                if okb:
+                    c.eq("UnitQuaternion[N].%s/rebuild/value" % nm_, np.asarray(Xi.A, dtype=float), refsR[i], TOL, index=i)
     cmp("Eul", [(rep, (lambda rep=rep: getattr(L, rep).Eul(ang, unit=unit))) for rep in ("SO3", "SE3", "UnitQuaternion")],
         refs.rotz(a[0]) @ refs.roty(a[1]) @ refs.rotz(a[2]))
     axis = list(case["axis"])
